@@ -179,6 +179,10 @@ def synthetic_shapes():
         'half-hour': ([T0, T0 + 100 * DAYS, T0 + 200 * DAYS], [1, 0, 1], [(19800, 0, 'IST'), (21600 + 1800, 1, 'IDT')]),
         'sub-minute': ([T0, T0 + 100 * DAYS, T0 + 200 * DAYS], [1, 2, 1], [(-17762, 0, 'LMT'), (-18000, 0, 'EST'), (-14400, 1, 'EDT')]),
         'big-jump': ([T0, T0 + 100 * DAYS, T0 + 200 * DAYS], [1, 0, 1], [(-11 * H, 0, 'W'), (13 * H, 0, 'E')]),
+        # the type table lists a daylight type first: "the first standard type" is then not "the first type"
+        'dst-type-first': ([T0, T0 + 100 * DAYS, T0 + 200 * DAYS, T0 + 300 * DAYS], [0, 1, 0, 1], [(2 * H, 1, 'DST'), (H, 0, 'STD')]),
+        'dst-type-first-into-std': ([T0, T0 + 100 * DAYS, T0 + 200 * DAYS], [1, 0, 1], [(2 * H, 1, 'DST'), (H, 0, 'STD')]),
+        'dst-type-first-three': ([T0, T0 + 100 * DAYS, T0 + 200 * DAYS], [2, 0, 1], [(2 * H, 1, 'DST'), (H, 0, 'STD'), (0, 0, 'OLD')]),
         'close': ([T0, T0 + 1800, T0 + 100 * DAYS, T0 + 200 * DAYS], [1, 0, 1, 0], [(0, 0, 'STD'), (H, 1, 'DST')]),
     }
 
